@@ -245,7 +245,8 @@ impl NtpDuration {
     /// Interval of same length, but positive direction
     pub const fn abs(self) -> Self {
         Self {
-            duration: self.duration.abs(),
+            // saturate: the absolute value of i64::MIN is not representable
+            duration: self.duration.saturating_abs(),
         }
     }
 
@@ -391,7 +392,8 @@ impl Neg for NtpDuration {
 
     fn neg(self) -> Self::Output {
         NtpDuration {
-            duration: -self.duration,
+            // saturate: the negation of i64::MIN is not representable
+            duration: self.duration.saturating_neg(),
         }
     }
 }
@@ -454,17 +456,17 @@ macro_rules! ntp_duration_scalar_div {
             type Output = NtpDuration;
 
             fn div(self, rhs: $scalar_type) -> NtpDuration {
-                // No overflow risks for division
+                // The only overflow risk for division is i64::MIN / -1, saturate there
                 NtpDuration {
-                    duration: self.duration / (rhs as i64),
+                    duration: self.duration.saturating_div(rhs as i64),
                 }
             }
         }
 
         impl DivAssign<$scalar_type> for NtpDuration {
             fn div_assign(&mut self, rhs: $scalar_type) {
-                // No overflow risks for division
-                self.duration /= (rhs as i64);
+                // The only overflow risk for division is i64::MIN / -1, saturate there
+                self.duration = self.duration.saturating_div(rhs as i64);
             }
         }
     };
@@ -532,7 +534,7 @@ impl PollInterval {
 
     #[must_use]
     pub fn inc(self, limits: PollIntervalLimits) -> Self {
-        Self(self.0 + 1).min(limits.max)
+        Self(self.0.saturating_add(1)).min(limits.max)
     }
 
     #[must_use]
@@ -542,7 +544,7 @@ impl PollInterval {
 
     #[must_use]
     pub fn dec(self, limits: PollIntervalLimits) -> Self {
-        Self(self.0 - 1).max(limits.min)
+        Self(self.0.saturating_sub(1)).max(limits.min)
     }
 
     pub const fn as_log(self) -> i8 {
